@@ -63,6 +63,14 @@ var probes = []probeCase{
 		`[{"op":"setup","kv":["never","never","never"],"nu":2},
 		  {"op":"preexec","amt":0,"prog":[{"op":"xfer","a":1}]},
 		  {"op":"submit","tk":"cin_extra"}]`},
+	{"event_offset", "control: a write next to an event (odd case number: the event record precedes it in the write set) reads the same on a node without warm cache (cold) and through its version reference (ref)", false,
+		`[{"op":"setup","kv":["live","never","never"],"nu":2},
+		  {"op":"preexec","amt":0,"prog":[{"op":"put","n":2,"v":"p"},{"op":"emit","v":"e"},{"op":"xfer","a":1}]},
+		  {"op":"submit","tk":"none"}]`},
+	{"write_dup", "control: the record of k2 replaced by a copy of the record of k1 (two records, as executed) is refused", false,
+		`[{"op":"setup","kv":["live","never","never"],"nu":0},
+		  {"op":"preexec","amt":0,"prog":[{"op":"put","n":1,"v":"p"},{"op":"put","n":2,"v":"q"}]},
+		  {"op":"submit","tk":"write_dup","n":2,"j":1}]`},
 	{"phantom", "observation: a key inserted into a scanned range after pre-execution is not a declared read", false,
 		`[{"op":"setup","kv":["live","never","never"],"nu":0},
 		  {"op":"preexec","amt":0,"prog":[{"op":"scan","a":1,"b":4},{"op":"put","n":3,"v":"p"}]},
@@ -119,7 +127,7 @@ func probe(args []string) error {
 				return fmt.Errorf("probe %s: %v", p.name, err)
 			}
 			o := c.project()
-			line["keys"], line["bal"] = o.Keys, o.Bal
+			line["keys"], line["bal"], line["cold"], line["ref"], line["scan"], line["cscan"] = o.Keys, o.Bal, o.Cold, o.Ref, o.Scan, o.Cscan
 			if op.Str("op") == "preexec" {
 				line["resp"] = o.Resp
 			}
